@@ -65,6 +65,37 @@ pub fn rule_config(id: &str, rule: ast_grep_config::SerializableRule, fix: bool)
   RuleConfig::try_from(cfg, &Default::default()).expect("valid rule config")
 }
 
+/// a `RuleConfig` whose matcher is built from parts (hook constructors): no YAML, no
+/// `deserialize_rule` -- far cheaper to execute symbolically; `CombinedScan` only looks at
+/// `id`, `fix.is_some()`, `severity` and the matcher
+pub fn rule_config_direct(id: &str, rule: ast_grep_config::Rule<HL>, fix: bool) -> RuleConfig<HL> {
+  let core = SerializableRuleCore {
+    rule: ast_grep_config::SerializableRule::default(),
+    constraints: None,
+    utils: None,
+    transform: None,
+    fix: if fix { Some(ast_grep_config::verif_hooks::SerializableFixer::Str(String::new())) } else { None },
+  };
+  let cfg = SerializableRuleConfig {
+    core,
+    id: id.to_string(),
+    language: HL('$'),
+    rewriters: None,
+    message: String::new(),
+    note: None,
+    severity: Severity::Hint,
+    files: None,
+    ignores: None,
+    url: None,
+    metadata: None,
+  };
+  ast_grep_config::verif_hooks::rule_config_from_parts(cfg, ast_grep_config::RuleCore::new(rule))
+}
+
+pub fn kind_of_id(k: u16) -> ast_grep_config::Rule<HL> {
+  ast_grep_config::Rule::Kind(ast_grep_core::matcher::KindMatcher::from_id(k))
+}
+
 /// the unused-suppression rule: same shape as `CombinedScan::unused_config` (which parses
 /// YAML and is therefore built programmatically here): `any: []`, with a fix
 pub fn unused_rule() -> RuleConfig<HL> {
@@ -160,20 +191,39 @@ pub struct Observed {
   pub dup: bool,
 }
 
+/// the three rule configs (concrete), built once per harness
+pub struct Rules {
+  pub ra: RuleConfig<HL>,
+  pub rb: RuleConfig<HL>,
+  pub un: RuleConfig<HL>,
+}
+impl Rules {
+  pub fn new() -> Self {
+    // `ra` matches statements of kind a; `rb` matches statements of kind a AND kind b, so
+    // two rules can report the same node (one may be suppressed while the other is not)
+    use ast_grep_config::Rule;
+    use ast_grep_core::ops::Any;
+    Rules {
+      ra: rule_config_direct("ra", kind_of_id(K_IDENT), false),
+      rb: rule_config_direct("rb", Rule::Any(Any::new([kind_of_id(K_IDENT), kind_of_id(K_NUMBER)])), false),
+      // same shape as `CombinedScan::unused_config`: `any: []` with a fix
+      un: rule_config_direct("unused-suppression", Rule::Any(Any::new(std::iter::empty())), true),
+    }
+  }
+}
+
 pub fn run_scan(vs: &[V], rows: &[u32; 4]) -> Observed {
+  let rules = Rules::new();
+  let o = run_scan_with(&rules, vs, rows);
+  std::mem::forget(rules);
+  o
+}
+
+pub fn run_scan_with(rules: &Rules, vs: &[V], rows: &[u32; 4]) -> Observed {
   let (d, src) = build_tree(vs, rows);
   let g = mk_grep(&src, d);
-  // `ra` matches statements of kind a; `rb` matches statements of kind a AND kind b, so
-  // two rules can report the same node (one may be suppressed while the other is not)
-  let ra = rule_config("ra", kind_rule("ident__"), false);
-  let rb_rule = ast_grep_config::SerializableRule {
-    any: Some(vec![kind_rule("ident__"), kind_rule("number_")]).into(),
-    ..Default::default()
-  };
-  let rb = rule_config("rb", rb_rule, false);
-  let un = unused_rule();
-  let mut scan = CombinedScan::new(vec![&ra, &rb]);
-  scan.set_unused_suppression_rule(&un);
+  let mut scan = CombinedScan::new(vec![&rules.ra, &rules.rb]);
+  scan.set_unused_suppression_rule(&rules.un);
   let res = scan.scan(&g, false);
   let mut o = Observed { ra: [false; 5], rb: [false; 5], unused: [false; 5], dup: false };
   for (rule, nms) in res.matches.iter() {
@@ -194,16 +244,21 @@ pub fn run_scan(vs: &[V], rows: &[u32; 4]) -> Observed {
   }
   std::mem::forget(res);
   std::mem::forget(scan);
-  std::mem::forget(ra);
-  std::mem::forget(rb);
-  std::mem::forget(un);
   std::mem::forget(g);
+  std::mem::forget(src);
   o
 }
 
 /// the property for one layout
 pub fn check_layout(vs: &[V], rows: &[u32; 4]) -> bool {
-  let o = run_scan(vs, rows);
+  let rules = Rules::new();
+  let r = check_layout_with(&rules, vs, rows);
+  std::mem::forget(rules);
+  r
+}
+
+pub fn check_layout_with(rules: &Rules, vs: &[V], rows: &[u32; 4]) -> bool {
+  let o = run_scan_with(rules, vs, rows);
   if o.dup {
     return false;
   }
@@ -261,67 +316,37 @@ mod proofs {
     rows
   }
 
-  /// all layouts with k = 2 children (36 variant vectors) x symbolic lines
-  #[kani::proof]
-  #[kani::unwind(10)]
-  #[kani::stub(regex::Regex::new, crate::stub_regex_new)]
-  fn c14_suppress_iff_k2() {
-    let rows = any_rows(2);
-    let mut a = 0;
-    while a < 6 {
-      let mut b = 0;
-      while b < 6 {
-        let vs = [ALL_V[a], ALL_V[b]];
-        let has_stmt = a < 2 || b < 2;
-        let has_ignore = (a >= 2 && a <= 4) || (b >= 2 && b <= 4);
-        if has_stmt && has_ignore {
-          assert!(check_layout(&vs, &rows));
-        }
-        b += 1;
-      }
-      a += 1;
-    }
+  /// one concrete variant vector, symbolic (monotone) lines
+  fn layout(vs: &[V]) {
+    let rows = any_rows(vs.len());
+    let rules = Rules::new();
+    let ok = check_layout_with(&rules, vs, &rows);
     kani::cover!(rows[0] == rows[1]);
     kani::cover!(rows[0] + 1 == rows[1]);
+    assert!(ok, "finding reported <=> matched and not suppressed");
+    std::mem::forget(rules);
   }
 
-  /// k = 3, one harness per first-child variant (run in parallel)
-  fn k3(first: usize) {
-    let rows = any_rows(3);
-    let mut b = 0;
-    while b < 6 {
-      let mut c = 0;
-      while c < 6 {
-        let vs = [ALL_V[first], ALL_V[b], ALL_V[c]];
-        let stmts = (first < 2) as u8 + (b < 2) as u8 + (c < 2) as u8;
-        let ignores = (first >= 2 && first <= 4) as u8 + (b >= 2 && b <= 4) as u8 + (c >= 2 && c <= 4) as u8;
-        if stmts >= 1 && ignores >= 1 {
-          #[cfg(feature = "kf_suppression_same_target_line")]
-          {
-            // known finding: two suppression comments that target the same line
-            // (own-line comment on line L-1 and end-of-line comment on line L)
-          }
-          assert!(check_layout(&vs, &rows));
-        }
-        c += 1;
-      }
-      b += 1;
-    }
-    kani::cover!(rows[0] + 1 == rows[1] && rows[1] == rows[2]);
-  }
-  macro_rules! k3_harness {
-    ($name:ident, $first:expr) => {
+  macro_rules! layout_harness {
+    ($name:ident, [$($v:expr),*]) => {
       #[kani::proof]
       #[kani::unwind(10)]
       #[kani::stub(regex::Regex::new, crate::stub_regex_new)]
       fn $name() {
-        k3($first);
+        layout(&[$($v),*]);
       }
     };
   }
-  k3_harness!(c14_suppress_iff_k3_stmta, 0);
-  k3_harness!(c14_suppress_iff_k3_ignall, 2);
-  k3_harness!(c14_suppress_iff_k3_ignra, 3);
+  // k = 2
+  layout_harness!(c14_ignra_stmta, [V::IgnoreRa, V::StmtA]);
+  layout_harness!(c14_ignrb_stmta, [V::IgnoreRb, V::StmtA]);
+  layout_harness!(c14_stmta_ignall, [V::StmtA, V::IgnoreAll]);
+  layout_harness!(c14_stmtb_ignra, [V::StmtB, V::IgnoreRa]);
+  // k = 3
+  layout_harness!(c14_ignra_stmta_ignrb, [V::IgnoreRa, V::StmtA, V::IgnoreRb]);
+  layout_harness!(c14_stmta_ignall_stmtb, [V::StmtA, V::IgnoreAll, V::StmtB]);
+  layout_harness!(c14_plain_ignrb_stmtb, [V::Plain, V::IgnoreRb, V::StmtB]);
+  layout_harness!(c14_stmta_ignra_ignrb, [V::StmtA, V::IgnoreRa, V::IgnoreRb]);
 }
 
 #[cfg(test)]
